@@ -31,6 +31,8 @@ import Proofs.RoundTripForest
 import Proofs.RoundTripSerM
 import Proofs.RoundTripFull
 import Proofs.RoundTripAll
+import PM.RoundTripSchema
+import Proofs.RoundTripParts
 namespace PM.C19
 open PM.Dom
 
@@ -1082,6 +1084,35 @@ open PM PM.RoundTrip in
 theorem roundtrip (R : RParser) (D : ToDom) (doc : Node) (h : rtOk R D doc = true) : roundTrip R D doc = .ok doc :=
   roundtrip_core R D doc h
 
+open PM PM.RoundTrip in
+/-- `rtOk` splits into a part about the tables (`rtSchemaOk`: the selector table is parallel to the rules; every node and
+    mark type is — at its default attributes and at the static `attrs` of each of its parse rules — emitted in a form that
+    the first matching rule reads back as the same type with the same attributes: hole position, void / leaf form,
+    `pre > code` wrapper) and a part about the document (`rtDocOk`: valid, normalised, whitespace-normal, marks on inline
+    leaves among leaf siblings, attributes outside those patterns carried by the rules) -/
+theorem roundtrip_rtOk_of_parts (R : RParser) (D : ToDom) (doc : Node) (hs : rtSchemaOk R D = true)
+    (hd : rtDocOk R D doc = true) : rtOk R D doc = true :=
+  rtOk_of_parts R D doc hs hd
+
+open PM PM.RoundTrip in
+/-- the split loses nothing: under the schema part, `rtOk` and the document part are the same condition -/
+theorem roundtrip_parts_iff (R : RParser) (D : ToDom) (doc : Node) (hs : rtSchemaOk R D = true) :
+    rtDocOk R D doc = rtOk R D doc := by
+  cases h : rtOk R D doc with
+  | true => exact rtDocOk_of_rtOk R D doc hs h
+  | false =>
+    cases h2 : rtDocOk R D doc with
+    | false => rfl
+    | true => rw [rtOk_of_parts R D doc hs h2] at h; cases h
+
+open PM PM.RoundTrip in
+/-- **export then import is the identity, schema part and document part apart**: once the tables of a schema pass
+    `rtSchemaOk` (decided by the kernel for the generated tables of the bundled schemas: lean/Gen/RoundTrip.lean), every
+    document that passes `rtDocOk` is parsed back from its own HTML -/
+theorem roundtrip_of_parts (R : RParser) (D : ToDom) (doc : Node) (hs : rtSchemaOk R D = true)
+    (hd : rtDocOk R D doc = true) : roundTrip R D doc = .ok doc :=
+  roundtrip R D doc (rtOk_of_parts R D doc hs hd)
+
 namespace RoundTripExamples
 open PM.RoundTrip PM.FromDom
 -- labelled tests of the whitespace rule (`textOk`): "foo", "a b" are normal; a leading space at the start of a textblock,
@@ -1179,6 +1210,18 @@ example : String.ofList (Dom.renderAll (serializeDoc SB DB docMarks)) =
     "<p><em>a </em><strong>b</strong> <em><strong>c d</strong></em></p><pre><code>x\n  y\n</code></pre>" := by decide
 -- a document that is NOT whitespace-normal (a paragraph ending in a space) does not satisfy the hypothesis
 example : rtOk RB DB (.elem 0 [] [] [.elem 1 [] [] [.text [97, 32] []]]) = false := by decide
+-- attribute values as `str()` prints them: a string is itself (escapes undone), a number its digits, `None` is skipped
+example : pyStr "\"a\\\"b\\n\"" = some (some ['a', '"', 'b', '\n']) := by decide +kernel
+example : pyStr "3" = some (some ['3']) := by decide
+example : pyStr "null" = some none := by decide
+example : pyStr "[1]" = none := by decide
+-- `[f"h{node.attrs['level']}", 0]` at level 2
+example : evalParts [("level", "2")] [.lit ['h'], .attr "level"] = some ['h', '2'] := by decide
+-- the tables of the small schema pass the schema part; its documents pass the document part; the theorem applies
+example : rtSchemaOk RB DB = true := by decide
+example : nodePatterns RB = [(1, []), (2, []), (4, [])] := by decide
+example : rtDocOk RB DB docMarks = true := by decide
+example : roundTrip RB DB docMarks = .ok docMarks := roundtrip_of_parts RB DB docMarks (by decide) (by decide)
 end RoundTripExamples
 
 end PM.C19
